@@ -100,3 +100,42 @@ Example c07_register_example :
   register_all [] [mkReq 0 None 10; mkReq 1 (Some 20) 10; mkReq 0 None 10; mkReq 2 (Some 20) 11; mkReq 3 None 12]
   = ([(10, 0); (20, 1)], [RegOk; RegOk; RegSame; RegPanic]).
 Proof. vm_compute. reflexivity. Qed.
+
+(* ---- run level: what ends up in a named field after a successful start (Proofs/FactoryWiring.v) ------------ *)
+From IocVerif Require Import Model.App Proofs.FactoryWiring Proofs.FactoryNoPanic.
+
+Theorem c07_wired_named : forall s st h c k p n,
+  run repaired s = Ok st ->
+  procs_pointless_b (normalise repaired s) = true -> stages_ok_b (normalise repaired s) = true ->
+  alookup h (L1 (reg st)) <> None -> get_comp (s_pop s) h = Some c -> nth_error (c_points c) k = Some p ->
+  pt_sel p = SByName (Some n) -> pt_slice p = false -> pt_target p <> TOther -> n <> h ->
+  (match pt_quals p with Some qs => qual_ok (s_pop s) qs n = true | None => True end) ->
+  (* exactly the named component (its published object, assignable to the field) ... *)
+  (map owner (field_of st h k) = [n]
+   /\ forallb (fun v => assignable (s_pop s) v (pt_target p)) (field_of st h k) = true)
+  (* ... or, when it cannot be assigned, an untouched optional field (a required one fails the start) *)
+  \/ (field_of st h k = [] /\ pt_required p = false).
+Proof.
+  intros s st h c k p n H Hpp Hso Hpub Hc Hk Hs Hsl Ht Hne Hq.
+  destruct (run_core_wired repaired (normalise repaired s) st eq_refl eq_refl eq_refl eq_refl Hpp Hso H h c k p Hpub Hc Hk)
+    as [x [Hx Hw]].
+  cbn [normalise s_pop s_oracle enum_order fix_c10 repaired] in Hx, Hw.
+  unfold further_one in Hx. rewrite (c07_named_exact _ _ _ _ _ Hs Hsl Ht Hne Hq) in Hx. injection Hx as <-.
+  unfold wired_point in Hw. cbn [map remove_nil] in Hw. rewrite Hsl in Hw. cbn [firstn] in Hw. exact Hw.
+Qed.
+
+(* a name nobody registered: the start does not succeed with a required point; an optional one stays empty *)
+Theorem c07_wired_absent : forall s st h c k p,
+  run repaired s = Ok st ->
+  procs_pointless_b (normalise repaired s) = true -> stages_ok_b (normalise repaired s) = true ->
+  alookup h (L1 (reg st)) <> None -> get_comp (s_pop s) h = Some c -> nth_error (c_points c) k = Some p ->
+  pt_sel p = SByName None -> pt_slice p = false -> pt_target p <> TOther ->
+  pt_required p = false /\ field_of st h k = [].
+Proof.
+  intros s st h c k p H Hpp Hso Hpub Hc Hk Hs Hsl Ht.
+  destruct (run_core_wired repaired (normalise repaired s) st eq_refl eq_refl eq_refl eq_refl Hpp Hso H h c k p Hpub Hc Hk)
+    as [x [Hx Hw]].
+  cbn [normalise s_pop s_oracle enum_order fix_c10 repaired] in Hx, Hw.
+  rewrite (c07_absent _ _ _ _ Hs Hsl Ht) in Hx. destruct (pt_required p); [discriminate|].
+  injection Hx as <-. split; [reflexivity|exact Hw].
+Qed.
